@@ -171,7 +171,7 @@ func runC10(c *Ctx) {
 			evalWin("fixture-tail", b[16:])
 		}
 	}
-	n := c.N(700, 15000)
+	n := c.N(700, 100000)
 	for i := 0; i < n; i++ {
 		t := genTime(rng)
 		var dl int
